@@ -89,3 +89,26 @@ pub fn srref(args: &[&str]) -> String {
         _ => "BADCASE".into(),
     }
 }
+
+/// SRREFE x<administrative record bytes> -> as SRREF, after the decoded record went through the crate's ENCODER and decoder once more
+pub fn srrefe(args: &[&str]) -> String {
+    use bp7::administrative_record::AdministrativeRecord;
+    match args {
+        [t] => match get_bytes(t) {
+            Some(b) => match serde_cbor::from_slice::<AdministrativeRecord>(&b) {
+                Ok(AdministrativeRecord::BundleStatusReport(sr0)) => {
+                    let again = serde_cbor::to_vec(&AdministrativeRecord::BundleStatusReport(sr0)).expect("record serializes");
+                    match serde_cbor::from_slice::<AdministrativeRecord>(&again) {
+                        Ok(AdministrativeRecord::BundleStatusReport(sr)) => format!("OK {}", show_bytes(sr.refbundle().as_bytes())),
+                        Ok(_) => "OTHER2".into(),
+                        Err(_) => "ERR2".into(),
+                    }
+                }
+                Ok(_) => "OTHER".into(),
+                Err(_) => "ERR".into(),
+            },
+            None => "BADCASE".into(),
+        },
+        _ => "BADCASE".into(),
+    }
+}
